@@ -165,7 +165,10 @@ def _bisect(f: Callable[[float], float], a: float, b: float, c: float) -> float:
 
 def _ndtri_exp_single(y: float) -> float:
     # TODO(amylase): Justify this constant
-    return _bisect(_log_ndtr_single, -100, +100, y)
+    # The root is below -100 when y < log_ndtr(-100). As log_ndtr(x) < -x**2 / 2 for x < 0, it is
+    # always above -sqrt(-2 * y), which keeps the root inside the bracket.
+    lower = min(-100.0, -math.sqrt(-2.0 * y)) if y < 0 else -100.0
+    return _bisect(_log_ndtr_single, lower, +100, y)
 
 
 def _ndtri_exp(y: np.ndarray) -> np.ndarray:
